@@ -98,6 +98,33 @@ def env(offsets):
         _symdt.set_env(offsets)
 
 
+_TIME_ATTRS = {}
+ZONE = [None]
+
+
+def env_zone(std, dst):
+    """the process time zone: standard utc offset `std` seconds, DST (+1 h) in force iff `dst`.
+    Every local-time query answers std + 3600*dst; time.timezone / altzone / daylight follow."""
+    if SYM:
+        import time as _time
+        off = std + 3600 if dst else std
+        _symdt.set_env([off])
+        ZONE[0] = (std, dst)
+        if not _TIME_ATTRS:
+            _TIME_ATTRS.update(timezone=_time.timezone, altzone=_time.altzone, daylight=_time.daylight)
+        _time.timezone = -std
+        _time.altzone = -(std + 3600)
+        _time.daylight = 1
+
+
+def _restore_time():
+    if _TIME_ATTRS:
+        import time as _time
+        _time.timezone, _time.altzone, _time.daylight = (
+            _TIME_ATTRS['timezone'], _TIME_ATTRS['altzone'], _TIME_ATTRS['daylight'])
+    ZONE[0] = None
+
+
 def dt_parts(v):
     """-> None if v is not a datetime, else (aware?, seconds, microsecond, utc offset seconds):
     seconds = absolute epoch seconds for aware values, wall-clock seconds for naive ones"""
@@ -202,7 +229,7 @@ def from_jsonable(x):
     return x
 
 
-def _report(args, exc):
+def _report(args, exc, zone=None):
     path = os.environ.get('HX_CEX_FILE')
     if not path:
         return
@@ -214,6 +241,11 @@ def _report(args, exc):
             if _symdt.ENV[0] is not None:
                 try:
                     extra['env_offsets'] = [deep_realize(o) for o in _symdt.ENV[0].offsets]
+                except Exception:
+                    pass
+            if zone is not None:
+                try:
+                    extra['env_zone'] = [deep_realize(zone[0]), bool(deep_realize(zone[1]))]
                 except Exception:
                     pass
             with open(path, 'w') as f:
@@ -236,6 +268,9 @@ def run(body, args):
     finally:
         if not SYM:
             sys.settrace(None)
+    zone = ZONE[0]
+    if SYM:
+        _restore_time()
     if Fuel.used > COUNT['max_ticks']:
         COUNT['max_ticks'] = Fuel.used
     if Fuel.tripped:
@@ -252,7 +287,7 @@ def run(body, args):
     LAST['exc'] = None if exc is None else '%s: %s' % (type(exc).__name__, exc)
     if Fuel.tripped:
         LAST['exc'] = 'work budget exhausted (non-termination or super-linear work)'
-    _report(args, exc)
+    _report(args, exc, zone)
     return False
 
 
@@ -300,3 +335,11 @@ def single_bits(x):
             x = realize(x)
     import ctypes
     return ctypes.c_uint32.from_buffer(ctypes.c_float(x)).value
+
+
+def st(wall):
+    """struct_time whose broken-down fields read `wall` seconds after 1970-01-01T00:00, tm_isdst=-1
+    (what datetime.timetuple() and time.strptime() produce)"""
+    if SYM:
+        return _symdt.SymST(wall)
+    return (datetime.datetime(1970, 1, 1) + datetime.timedelta(seconds=wall)).timetuple()
